@@ -225,3 +225,186 @@ theorem Selector.anyCompound_mono (f g : Compound → Bool) (h : ∀ c, f c = tr
     · exact Or.inr (Selector.anyCompound_mono f g h r hs)
 
 end Sel
+
+namespace Sel
+
+/-! ### nothing that survives the filter contains a placeholder -/
+
+theorem collectNegAux_mem {α : Type} :
+    ∀ (l : List (Opt α)) (acc r : List α), collectNegAux l acc = .some r →
+      ∀ x ∈ r, x ∈ acc ∨ Opt.some x ∈ l
+  | [], acc, r, h, x, hx => by
+    simp only [collectNegAux] at h
+    split at h
+    · cases h
+    · cases h; left; simpa using hx
+  | .some a :: rest, acc, r, h, x, hx => by
+    simp only [collectNegAux] at h
+    rcases collectNegAux_mem rest (a :: acc) r h x hx with h1 | h1
+    · rcases List.mem_cons.mp h1 with h2 | h2
+      · right; rw [h2]; exact List.mem_cons_self ..
+      · left; exact h2
+    · right; exact List.mem_cons_of_mem _ h1
+  | .any :: rest, acc, r, h, x, hx => by
+    simp only [collectNegAux] at h
+    rcases collectNegAux_mem rest acc r h x hx with h1 | h1
+    · left; exact h1
+    · right; exact List.mem_cons_of_mem _ h1
+  | .none :: rest, acc, r, h, x, hx => by simp [collectNegAux] at h
+
+theorem collectPosAux_mem {α : Type} :
+    ∀ (l : List (Opt α)) (acc r : List α), collectPosAux l acc = .some r →
+      ∀ x ∈ r, x ∈ acc ∨ Opt.some x ∈ l
+  | [], acc, r, h, x, hx => by
+    simp only [collectPosAux] at h
+    split at h
+    · cases h
+    · cases h; left; simpa using hx
+  | .some a :: rest, acc, r, h, x, hx => by
+    simp only [collectPosAux] at h
+    rcases collectPosAux_mem rest (a :: acc) r h x hx with h1 | h1
+    · rcases List.mem_cons.mp h1 with h2 | h2
+      · right; rw [h2]; exact List.mem_cons_self ..
+      · left; exact h2
+    · right; exact List.mem_cons_of_mem _ h1
+  | .any :: rest, acc, r, h, x, hx => by simp [collectPosAux] at h
+  | .none :: rest, acc, r, h, x, hx => by
+    simp only [collectPosAux] at h
+    rcases collectPosAux_mem rest acc r h x hx with h1 | h1
+    · left; exact h1
+    · right; exact List.mem_cons_of_mem _ h1
+
+theorem Pseudo.hasPhList_false_of_forall : ∀ l : List Pseudo, (∀ x ∈ l, x.hasPh = false) → Pseudo.hasPhList l = false
+  | [], _ => rfl
+  | p :: ps, h => by
+    simp [Pseudo.hasPhList, h p (List.mem_cons_self ..),
+      Pseudo.hasPhList_false_of_forall ps (fun x hx => h x (List.mem_cons_of_mem _ hx))]
+
+theorem Selector.hasPhList_false_of_forall : ∀ l : List Selector, (∀ x ∈ l, x.hasPh = false) → Selector.hasPhList l = false
+  | [], _ => rfl
+  | p :: ps, h => by
+    simp [Selector.hasPhList, h p (List.mem_cons_self ..),
+      Selector.hasPhList_false_of_forall ps (fun x hx => h x (List.mem_cons_of_mem _ hx))]
+
+theorem mem_map_noLeadingCombinator (t : List Selector) (x : Selector)
+    (h : Opt.some x ∈ t.map Selector.noLeadingCombinator) : x ∈ t := by
+  rcases List.mem_map.mp h with ⟨y, hy, hxy⟩
+  simp only [Selector.noLeadingCombinator] at hxy
+  split at hxy
+  · cases hxy
+  · cases hxy; exact hy
+
+mutual
+  theorem Selector.noPlaceholder_hasPh (q : PhQuirks) :
+      ∀ (s t : Selector), Selector.noPlaceholder q s = .some t → t.hasPh = false
+    | .leaf c, t, h => by
+      simp only [Selector.noPlaceholder] at h
+      cases hc : Compound.noPlaceholder q c with
+      | some c' =>
+        rw [hc] at h; cases h
+        simpa [Selector.hasPh] using Compound.noPlaceholder_hasPh q c c' hc
+      | any => rw [hc] at h; cases h; rfl
+      | none => rw [hc] at h; cases h
+    | .rel k r c, t, h => by
+      simp only [Selector.noPlaceholder] at h
+      cases hc : Compound.noPlaceholder q c with
+      | none => rw [hc] at h; cases h
+      | any =>
+        rw [hc] at h
+        simp only at h
+        split at h
+        · cases h
+        · cases hr : Selector.noPlaceholder q r with
+          | some r' =>
+            rw [hr] at h; cases h
+            have := Selector.noPlaceholder_hasPh q r r' hr
+            simp [Selector.hasPh, this]; rfl
+          | any => rw [hr] at h; cases h; rfl
+          | none => rw [hr] at h; cases h
+      | some c' =>
+        rw [hc] at h
+        simp only at h
+        have hc' := Compound.noPlaceholder_hasPh q c c' hc
+        split at h
+        · cases h
+        · cases hr : Selector.noPlaceholder q r with
+          | some r' =>
+            rw [hr] at h; cases h
+            have := Selector.noPlaceholder_hasPh q r r' hr
+            simp [Selector.hasPh, this, hc']
+          | any => rw [hr] at h; cases h; simpa [Selector.hasPh] using hc'
+          | none => rw [hr] at h; cases h
+  theorem Compound.noPlaceholder_hasPh (q : PhQuirks) :
+      ∀ (c c' : Compound), Compound.noPlaceholder q c = .some c' → c'.hasPh = false
+    | .mk b e p cl i a ps, c', h => by
+      simp only [Compound.noPlaceholder] at h
+      split at h
+      · cases h
+      · rename_i hp
+        have hp' : p.isEmpty = true := by simpa using hp
+        cases hn : collectNegAux (Pseudo.noPlaceholderList q ps) [] with
+        | none => rw [hn] at h; cases h
+        | any =>
+          rw [hn] at h; cases h
+          split
+          · simp [Compound.hasPh, hp', Pseudo.hasPhList]
+          · simp only [Compound.orUniversal]
+            split <;> simp [Compound.hasPh, Compound.setElem, hp', Pseudo.hasPhList]
+        | some ps' =>
+          rw [hn] at h; cases h
+          have : ∀ x ∈ ps', x.hasPh = false := by
+            intro x hx
+            rcases collectNegAux_mem _ _ _ hn x hx with h1 | h1
+            · simp at h1
+            · exact Pseudo.noPlaceholderList_hasPh q ps x h1
+          simp [Compound.hasPh, hp', Pseudo.hasPhList_false_of_forall ps' this]
+  theorem Pseudo.noPlaceholder_hasPh (q : PhQuirks) :
+      ∀ (p p' : Pseudo), Pseudo.noPlaceholder q p = .some p' → p'.hasPh = false
+    | .mk n (.sel s) e, p', h => by
+      simp only [Pseudo.noPlaceholder] at h
+      cases hs : collectPosAux (Selector.noPlaceholderList q s) [] with
+      | none => rw [hs] at h; cases hn : nameIn n [['n', 'o', 't']] <;> rw [hn] at h <;> cases h
+      | any => rw [hs] at h; cases hn : nameIn n [['n', 'o', 't']] <;> rw [hn] at h <;> cases h
+      | some t =>
+        rw [hs] at h
+        have ht : ∀ x ∈ t, x.hasPh = false := by
+          intro x hx
+          rcases collectPosAux_mem _ _ _ hs x hx with h1 | h1
+          · simp at h1
+          · exact Selector.noPlaceholderList_hasPh q s x h1
+        simp only at h
+        split at h
+        · cases hl : collectPosAux (List.map Selector.noLeadingCombinator t) [] with
+          | none => rw [hl] at h; cases h
+          | any => rw [hl] at h; cases h
+          | some t' =>
+            rw [hl] at h; cases h
+            have : ∀ x ∈ t', x.hasPh = false := by
+              intro x hx
+              rcases collectPosAux_mem _ _ _ hl x hx with h1 | h1
+              · simp at h1
+              · exact ht x (mem_map_noLeadingCombinator t x h1)
+            simp [Pseudo.hasPh, PArg.hasPh, Selector.hasPhList_false_of_forall t' this]
+        · cases h
+          simp [Pseudo.hasPh, PArg.hasPh, Selector.hasPhList_false_of_forall t ht]
+    | .mk n (.other s) e, p', h => by simp only [Pseudo.noPlaceholder] at h; cases h; rfl
+    | .mk n .none e, p', h => by simp only [Pseudo.noPlaceholder] at h; cases h; rfl
+  theorem Pseudo.noPlaceholderList_hasPh (q : PhQuirks) :
+      ∀ (ps : List Pseudo) (x : Pseudo), Opt.some x ∈ Pseudo.noPlaceholderList q ps → x.hasPh = false
+    | [], x, h => by simp [Pseudo.noPlaceholderList] at h
+    | p :: ps, x, h => by
+      simp only [Pseudo.noPlaceholderList, List.mem_cons] at h
+      rcases h with h | h
+      · exact Pseudo.noPlaceholder_hasPh q p x h.symm
+      · exact Pseudo.noPlaceholderList_hasPh q ps x h
+  theorem Selector.noPlaceholderList_hasPh (q : PhQuirks) :
+      ∀ (ss : List Selector) (x : Selector), Opt.some x ∈ Selector.noPlaceholderList q ss → x.hasPh = false
+    | [], x, h => by simp [Selector.noPlaceholderList] at h
+    | s :: ss, x, h => by
+      simp only [Selector.noPlaceholderList, List.mem_cons] at h
+      rcases h with h | h
+      · exact Selector.noPlaceholder_hasPh q s x h.symm
+      · exact Selector.noPlaceholderList_hasPh q ss x h
+end
+
+end Sel
